@@ -68,33 +68,51 @@ pub fn parse_pretty(s: &str) -> Result<Vec<PItem>, String> {
     if body.is_empty() {
         return Ok(vec![]);
     }
-    const H: &str = "\n-------- [ ";
-    if !body.starts_with(H) {
-        return Err(format!("pretty output does not start with a header: {:?}", &body[..body.len().min(40)]));
+    // an item header is a line of the form  <dashes> [ <n> ] <Ready|Pending> <dashes>
+    let is_header = |l: &str| -> Option<(usize, bool)> {
+        let t = l.trim();
+        if !(t.starts_with('-') && t.ends_with('-')) {
+            return None;
+        }
+        let a = t.find('[')?;
+        let b = t.find(']')?;
+        let idx: usize = t.get(a + 1..b)?.trim().parse().ok()?;
+        let word = t[b + 1..].trim_matches(|c: char| c == '-' || c == ' ');
+        match word {
+            "Ready" => Some((idx, true)),
+            "Pending" => Some((idx, false)),
+            _ => None,
+        }
+    };
+    let lines: Vec<&str> = body.split('\n').collect();
+    // layout: "" , header, item lines..., header, item lines...   (the output starts with a line
+    // break; every further header directly follows the end marker line of the previous item)
+    if lines.first() != Some(&"") {
+        return Err(format!("pretty output does not start with a line break: {:?}", lines.first()));
     }
-    let mut out = vec![];
-    let starts: Vec<usize> = body.match_indices(H).map(|m| m.0).collect();
-    for (k, &st) in starts.iter().enumerate() {
-        let end = starts.get(k + 1).copied().unwrap_or(body.len());
-        let chunk = &body[st + H.len()..end];
-        let (head, text) = chunk.split_once('\n').ok_or("header without item")?;
-        let (num, rest) = head.split_once(' ').ok_or("bad header")?;
-        let idx: usize = num.parse().map_err(|_| format!("bad item number {num:?}"))?;
-        let ready = match rest {
-            "]  Ready  --------" => true,
-            "] Pending --------" => false,
-            x => return Err(format!("bad header tail {x:?}")),
+    let mut out: Vec<PItem> = vec![];
+    for (i, l) in lines.iter().enumerate().skip(1) {
+        if let Some((idx, ready)) = is_header(l) {
+            out.push(PItem {
+                idx,
+                ready,
+                text: String::new(),
+            });
+            continue;
+        }
+        let Some(it) = out.last_mut() else {
+            return Err(format!("pretty output: expected an item header at line {}: {:?}", i + 1, l));
         };
-        out.push(PItem {
-            idx,
-            ready,
-            text: text.to_string(),
-        });
+        if !it.text.is_empty() {
+            it.text.push('\n');
+        }
+        it.text.push_str(l);
     }
     Ok(out)
 }
 
-/// text between colour-on (31m / 33m) and colour-off inside the code lines, joined by '\n'
+/// text between a colour-on sequence (any SGR other than reset) and the reset sequence inside
+/// the code lines, joined by '\n'
 pub fn highlighted(item_text: &str) -> Option<String> {
     let lines: Vec<&str> = item_text.split('\n').collect();
     if lines.len() < 3 {
@@ -102,23 +120,49 @@ pub fn highlighted(item_text: &str) -> Option<String> {
     }
     let mut parts: Vec<String> = vec![];
     for l in &lines[1..lines.len() - 1] {
-        let mut rest = *l;
         let mut found = false;
-        loop {
-            let a = rest.find("\x1b[31m").or_else(|| rest.find("\x1b[33m"));
-            let Some(a) = a else { break };
-            let after = &rest[a + 5..];
-            let Some(b) = after.find("\x1b[0m") else { return None };
-            parts.push(after[..b].to_string());
-            found = true;
-            rest = &after[b + 4..];
+        let mut on = false;
+        let mut cur = String::new();
+        let mut it = l.chars().peekable();
+        while let Some(c) = it.next() {
+            if c == '\x1b' && it.peek() == Some(&'[') {
+                it.next();
+                let mut params = String::new();
+                for d in it.by_ref() {
+                    if d == 'm' {
+                        break;
+                    }
+                    params.push(d);
+                }
+                let reset = params.is_empty() || params == "0";
+                if on && reset {
+                    parts.push(std::mem::take(&mut cur));
+                    found = true;
+                    on = false;
+                } else if !on && !reset {
+                    on = true;
+                    cur.clear();
+                }
+            } else if on {
+                cur.push(c);
+            }
         }
-        if !found {
-            // a line of the region without any highlighted piece
+        if on || !found {
+            // unterminated colour, or a line of the region without any highlighted piece
             return None;
         }
     }
     Some(parts.join("\n"))
+}
+
+/// width of the line-number column: position behind the '|' of the first numbered line
+pub fn number_column_width(block: &str) -> Option<usize> {
+    let l = block.split('\n').nth(1)?;
+    let bar = l.find('|')?;
+    if l[..bar].trim().parse::<usize>().is_err() {
+        return None;
+    }
+    Some(bar + 1)
 }
 
 /// byte offset within `line` of display column `col` (tab = 4)
@@ -143,8 +187,9 @@ fn byte_of_col(line: &str, col: usize) -> Option<usize> {
 /// Locate the byte range an item describes from its line range and marker columns alone.
 pub fn locate(src: &str, it: &JItem) -> Option<(usize, usize)> {
     let blines: Vec<&str> = it.block.split('\n').collect();
-    let sc = blines.first()?.find("_start")?.checked_sub(9)?;
-    let ec = blines.last()?.find("‾end")?.checked_sub(9)?;
+    let w = number_column_width(&it.block)?;
+    let sc = blines.first()?.find("_start")?.checked_sub(w)?;
+    let ec = blines.last()?.find("‾end")?.checked_sub(w)?;
     let line_starts: Vec<usize> = std::iter::once(0)
         .chain(src.match_indices('\n').map(|m| m.0 + 1))
         .collect();
@@ -401,7 +446,8 @@ pub fn check16(case: &DocCase) -> Res {
             }
             for (i, l) in bl[1..bl.len() - 1].iter().enumerate() {
                 let n = j.first + i;
-                let want = format!("{:7} |{}", n, n.checked_sub(1).and_then(|i| src_lines.get(i)).copied().unwrap_or("<no such line>").replace('\t', "    "));
+                let w = number_column_width(&j.block).unwrap_or(9);
+                let want = format!("{:>width$} |{text}", n, width = w.saturating_sub(2), text = n.checked_sub(1).and_then(|i| src_lines.get(i)).copied().unwrap_or("<no such line>").replace('\t', "    "));
                 if *l != want {
                     viol = Some((
                         "numbered-line-is-not-that-source-line".into(),
@@ -432,7 +478,8 @@ pub fn check16(case: &DocCase) -> Res {
                 if case.src[ls..r.e].contains('\t') {
                     tabbed = true;
                 }
-                let (f, l, want) = ref_render_item(&case.src, r);
+                let w = number_column_width(&j.block).unwrap_or(9);
+                let (f, l, want) = ref_render_item(&case.src, r, w);
                 if (j.first, j.last) != (f, l) {
                     continue; // C15 / C17's business
                 }
@@ -558,16 +605,18 @@ fn ast_params(prop: &str, tier: Tier) -> AstParams {
         rich: false,
         short_unwrap: false,
         shared_lines: true,
+        shared_pairs: vec![],
     };
     match (prop, tier) {
         ("C17", Tier::Quick) => AstParams {
-            max_lines: 8,
+            max_lines: 7,
             max_depth: 2,
             block_kinds: vec![Kind::Future, Kind::Expired, Kind::SkipFuture, Kind::SkipExpired],
             inline_kinds: vec![Kind::Future, Kind::Expired],
             blank: false,
             short_unwrap: true,
             shared_lines: false,
+            shared_pairs: vec![],
             ..base
         },
         ("C17", Tier::Thorough) => AstParams {
@@ -578,10 +627,13 @@ fn ast_params(prop: &str, tier: Tier) -> AstParams {
             blank: false,
             short_unwrap: true,
             shared_lines: false,
+            shared_pairs: vec![],
             ..base
         },
         (_, Tier::Quick) => AstParams {
             max_lines: 5,
+            block_kinds: vec![Kind::Expired, Kind::Future],
+            shared_pairs: vec![(Kind::Expired, Kind::Expired), (Kind::Future, Kind::Expired)],
             ..base
         },
         (_, Tier::Thorough) => AstParams {
@@ -605,7 +657,7 @@ fn doc_check(prop: &str, case: &DocCase) -> Res {
 
 fn eval(l: &mut Local, prop: &str, case: &DocCase, sample_ok: bool) {
     l.eval();
-    let h = hash64(&[case.src.as_bytes(), case.ds.as_bytes()]);
+    let h = hash64(&[case.src.as_bytes(), case.ds.as_bytes(), case.cfg.now.as_bytes(), &[case.cfg.targets.len() as u8]]);
     l.state(h);
     let res = doc_check(prop, case);
     l.class(res.class);
@@ -638,6 +690,16 @@ pub fn run(r: &Report, prop: &str) {
     });
     r.assume("reference regions: one per default-strategy element, two per unwrapped element, nested regions dropped (refmodel::regions), validated against ground truth by construction in C02's model validation");
     let d = &gen::POOL[0];
+    let cfg_none = Cfg {
+        now: "1990-01-01T00:00:00+00:00".into(),
+        targets: vec![],
+        ..Cfg::standard()
+    };
+    let cfg_all = Cfg {
+        now: "3005-01-01T00:00:00+00:00".into(),
+        targets: vec!["a".into(), "b".into()],
+        ..Cfg::standard()
+    };
     let single = count_choices(|ch| {
         gen::gen_doc(ch, &p);
     });
@@ -651,7 +713,7 @@ pub fn run(r: &Report, prop: &str) {
             if prop == "C15" && starts_blank {
                 return;
             }
-            let pairs: &[usize] = if r.tier == Tier::Thorough && prop != "C17" { &[0, 1, 2] } else { &[0] };
+            let pairs: &[usize] = if r.tier == Tier::Thorough && prop != "C17" { &[0, 1, 6] } else { &[0] };
             for &pi in pairs {
                 let d = &gen::POOL[pi];
                 let rd = gen::render(
@@ -672,6 +734,18 @@ pub fn run(r: &Report, prop: &str) {
                     cfg: cfg.clone(),
                 };
                 eval(l, prop, &case, items.len() >= 2);
+                if prop == "C15" || prop == "C17" {
+                    // the same source again, on the same thread, under configurations in which
+                    // nothing / everything is ready: listing is a function of source AND
+                    // configuration (no state may survive from the previous call)
+                    for c2 in [&cfg_none, &cfg_all] {
+                        let case2 = DocCase {
+                            cfg: (*c2).clone(),
+                            ..case.clone()
+                        };
+                        eval(l, prop, &case2, false);
+                    }
+                }
             }
         },
         &|| r.stopped(),
